@@ -48,7 +48,7 @@ def strip_macro_stmts(text, counts, rid, name_rx):
 
 
 DROP_ATTRS = r'inline|must_use|allow|doc|error|from|repr|cfg_attr|serde|non_exhaustive|track_caller|cold|deprecated|default|source|expect'
-KEEP_DERIVES = ('Debug', 'Clone', 'Copy', 'PartialEq', 'Eq', 'Hash')
+KEEP_DERIVES = ('Clone', 'Copy')
 
 
 def rule_D1(text, counts, keep_derives=None):
@@ -169,6 +169,9 @@ def apply(text, opts, kind='fn'):
             text = rule_R2(text, counts)
         # R6: `Some(&x)` binder pattern -> `Some(x)`, later uses of x become (*x)
         text = rule_R6(text, counts)
+        # R8: Entry::Vacant idiom -> contains_key / insert (a VacantEntry holds &mut to the map)
+        text = _sub(r'if let Entry::Vacant\((\w+)\) = ([\w.]+)\.entry\(([^()]*)\)\s*\{\s*\1\.insert\(([^;]*)\);\s*\}',
+                    r'if !\2.contains_key(&\3) { \2.insert(\3, \4); }', text, counts, 'R8')
         # R3
         text = _sub(r'\btake\(([^()]*(?:\([^()]*\))?[^()]*)\)\(([^()]*)\)', r'take_n(\1, \2)', text, counts, 'R3')
         # R4
